@@ -485,3 +485,333 @@ Proof.
   intros [= <-]. cbn [sgnz] in Hlit. split; auto. unfold int_in_range.
   pose proof (N2Z.inj_pow 2 bits) as HP. change (Z.of_N 2) with 2%Z in HP. rewrite <- HP. lia.
 Qed.
+
+(* ---------- completeness outside the F6 class ---------- *)
+Lemma sgnz_invol neg x : sgnz neg (sgnz neg x) = x.
+Proof. destruct neg; cbn [sgnz]; lia. Qed.
+Lemma sgnz_mul neg x y : (sgnz neg x * y)%Z = sgnz neg (x * y)%Z.
+Proof. destruct neg; cbn [sgnz]; lia. Qed.
+
+(* the converse of lit_arith *)
+Lemma lit_w neg (M v : Z) (k fl : nat) (X : Z) :
+  (let m := sgnz neg (M * PZ k)%Z in
+   let e10 := (X - Z.of_nat (fl + k))%Z in
+   if (0 <=? e10)%Z then v = (m * 10 ^ e10)%Z else m = (v * 10 ^ (- e10))%Z) ->
+  let w := sgnz neg v in
+  ((Z.of_nat fl <= X -> w = M * PZ (Z.to_nat (X - Z.of_nat fl))) /\
+   (X < Z.of_nat fl -> M = w * PZ (Z.to_nat (Z.of_nat fl - X))))%Z.
+Proof.
+  cbn zeta. destruct (0 <=? X - Z.of_nat (fl + k))%Z eqn:C; rewrite pow10_PZ by lia; intros H.
+  - split; [intros _|lia]. rewrite H, sgnz_mul, sgnz_invol.
+    replace (Z.to_nat (X - Z.of_nat fl)) with (k + Z.to_nat (X - Z.of_nat (fl + k)))%nat by lia.
+    rewrite PZ_add. ring.
+  - apply (f_equal (sgnz neg)) in H. rewrite sgnz_invol, <- sgnz_mul in H.
+    set (w := sgnz neg v) in *.
+    split; intros HX.
+    + replace k with (Z.to_nat (X - Z.of_nat fl) + Z.to_nat (- (X - Z.of_nat (fl + k))))%nat in H at 1 by lia.
+      rewrite PZ_add, Z.mul_assoc in H.
+      apply Z.mul_reg_r in H; [auto|]. pose proof (PZ_pos (Z.to_nat (- (X - Z.of_nat (fl + k))))). lia.
+    + replace (Z.to_nat (- (X - Z.of_nat (fl + k)))) with (Z.to_nat (Z.of_nat fl - X) + k)%nat in H by lia.
+      rewrite PZ_add, Z.mul_assoc in H.
+      apply Z.mul_reg_r in H; [auto|]. pose proof (PZ_pos k). lia.
+Qed.
+
+Lemma DZ_snoc_mod t l : is_digit l = true -> (DZ (t ++ [l]) mod 10 = Z.of_N (dv l))%Z.
+Proof.
+  intros Hl. unfold DZ. pose proof (dec_val_snoc_mod t l) as H. pose proof (dv_digit _ Hl). lia.
+Qed.
+
+Lemma PZ_mod10 n : (1 <= n)%nat -> (PZ n mod 10 = 0)%Z.
+Proof. destruct n; [lia|]. intros _. unfold PZ. cbn [p10]. lia. Qed.
+
+Lemma PZ_mono a b : (a <= b)%nat -> (PZ a <= PZ b)%Z.
+Proof. intros H. unfold PZ. pose proof (p10_mono a b H). lia. Qed.
+
+Lemma DZ_lt s : digits s -> (DZ s < PZ (length s))%Z.
+Proof. intros H. unfold DZ, PZ. pose proof (dec_val_lt s H). lia. Qed.
+
+(* mantissa digits as kept by the code are non-zero unless both parts are empty *)
+Lemma M_pos i fd : rfc_int i -> digits fd ->
+  (intp_of i <> [] \/ trim_right_zeros fd <> []) -> (0 < DZ (intp_of i ++ trim_right_zeros fd))%Z.
+Proof.
+  intros Hi Hfd Hne. destruct (trim_spec fd Hfd) as (k & _ & Hfr & Hl).
+  destruct (intp_of_spec i Hi) as [[_ E] | [E (b & d & Ei & Hb & Hd)]].
+  - rewrite E in *. cbn [app]. destruct Hne as [Hne | Hne]; [contradiction|].
+    destruct Hl as [Hl | (t & l & Etl & Hl1 & Hl2)]; [contradiction|].
+    rewrite Etl. pose proof (DZ_snoc_mod t l Hl1). pose proof (dv_nonzero _ Hl1 Hl2).
+    pose proof (DZ_nonneg (t ++ [l])). lia.
+  - rewrite E, Ei. cbn [app]. unfold DZ. pose proof (dec_val_ge b (d ++ trim_right_zeros fd) Hb).
+    pose proof (p10_pos (length (d ++ trim_right_zeros fd))). lia.
+Qed.
+
+Lemma f6_x eneg esg ed : digits ed -> exp_case eneg esg ed ->
+  match esg ++ ed with
+  | b :: r => if is b c_plus then Z.of_N (dec_val r)
+              else if is b c_minus then (- Z.of_N (dec_val r))%Z
+              else Z.of_N (dec_val (b :: r))
+  | [] => 0%Z end = expZ eneg ed.
+Proof.
+  intros Hd [(-> & -> & ->) | (Hne & [[-> ->] | [[-> ->] | [-> ->]]])]; cbn [app]; try reflexivity.
+  destruct ed as [|b d]; [contradiction|]. apply digits_cons in Hd as [Hb _].
+  destruct (digits_not_sign _ Hb) as (Hm & Hp & _). rewrite Hp, Hm. reflexivity.
+Qed.
+
+Definition is_nil {A} (l : list A) : bool := match l with [] => true | _ => false end.
+
+(* a non-zero last fraction digit cannot be shifted out *)
+Lemma frac_not_int (intp fr : list byte) (w : Z) (n : nat) :
+  digits fr -> fr <> [] ->
+  (exists t l, fr = t ++ [l] /\ is_digit l = true /\ is0 l = false) ->
+  (1 <= n)%nat -> DZ (intp ++ fr) = (w * PZ n)%Z -> False.
+Proof.
+  intros Hfr Hne (t & l & -> & Hl1 & Hl2) Hn H.
+  rewrite app_assoc in H. pose proof (DZ_snoc_mod (intp ++ t) l Hl1) as Hm.
+  pose proof (dv_nonzero _ Hl1 Hl2). pose proof (dv_digit _ Hl1).
+  rewrite H in Hm. pose proof (PZ_mod10 n Hn).
+  rewrite Z.mul_mod, H2, Z.mul_0_r in Hm by lia. cbn in Hm. lia.
+Qed.
+
+Lemma norm_body_complete neg i fd eneg esg ed v :
+  rfc_int i -> digits fd -> digits ed -> exp_case eneg esg ed ->
+  let intp := intp_of i in
+  let fr := trim_right_zeros fd in
+  let X := expZ eneg ed in
+  let M := DZ (intp ++ fr) in
+  let w := sgnz neg v in
+  (intp <> [] \/ fr <> []) ->
+  ((max_digits <? X)%Z && is_nil intp || (2147483647 <? X)%Z || (X <? -2147483648)%Z) = false ->
+  (Z.of_nat (length fr) <= X -> w = M * PZ (Z.to_nat (X - Z.of_nat (length fr))))%Z ->
+  (X < Z.of_nat (length fr) -> M = w * PZ (Z.to_nat (Z.of_nat (length fr) - X)))%Z ->
+  (Z.abs v < PZ 20)%Z ->
+  exists ds, norm_body {| p_neg := neg; p_intp := intp; p_frac := fr; p_exp := esg ++ ed |}
+               = Some (sign_bytes neg ++ ds) /\
+             digits ds /\ ds <> [] /\ w = DZ ds /\ (0 < DZ ds)%Z.
+Proof.
+  intros Hi Hfd Hed Hec intp fr X M w Hne Hf6 Hw1 Hw2 Hv.
+  destruct (trim_spec fd Hfd) as (k0 & _ & Hfr & Hlast). fold fr in Hfr, Hlast.
+  assert (Hip : digits intp).
+  { subst intp. destruct (intp_of_spec i Hi) as [[_ ->] | [-> _]]; [reflexivity|]. apply (rfc_int_digits i Hi). }
+  pose proof (M_pos i fd Hi Hfd Hne) as HM. fold intp fr M in HM.
+  unfold norm_body. cbn [p_neg p_intp p_frac p_exp].
+  fold (code_exp esg ed). rewrite (code_exp_spec eneg esg ed Hed Hec). fold X. cbn zeta.
+  replace ((-2147483648 <=? X)%Z && (X <=? 2147483647)%Z) with true by lia.
+  fold (sign_bytes neg). unfold max_digits in *.
+  destruct (0 <=? X)%Z eqn:C0.
+  - destruct (X <? Z.of_nat (length fr))%Z eqn:C1.
+    { exfalso. assert (Hfne : fr <> []) by (destruct fr; [cbn [length] in C1; lia|discriminate]).
+      destruct Hlast as [Hl|Hl]; [contradiction|].
+      apply (frac_not_int intp fr w (Z.to_nat (Z.of_nat (length fr) - X)) Hfr Hfne Hl); [lia|].
+      apply Hw2. lia. }
+    assert (Hw : w = (M * PZ (Z.to_nat (X - Z.of_nat (length fr))))%Z) by (apply Hw1; lia).
+    destruct (20 <? Z.of_nat (length intp) + X)%Z eqn:C2.
+    { exfalso. destruct (intp_of_spec i Hi) as [[_ E] | [E (b & d & Ei & Hb & Hd)]]; fold intp in E.
+      - rewrite E in *. cbn [is_nil length] in *. lia.
+      - assert (HMge : (PZ (length d + length fr) <= M)%Z).
+        { subst M. rewrite E, Ei. cbn [app]. unfold DZ, PZ.
+          pose proof (dec_val_ge b (d ++ fr) Hb) as Hge. rewrite app_length in Hge. lia. }
+        assert (Hlen : length intp = S (length d)) by (rewrite E, Ei; reflexivity).
+        pose proof (PZ_add (length d + length fr) (Z.to_nat (X - Z.of_nat (length fr)))) as Hadd.
+        pose proof (PZ_mono 20 (length d + length fr + Z.to_nat (X - Z.of_nat (length fr)))) as Hmono.
+        pose proof (PZ_pos (Z.to_nat (X - Z.of_nat (length fr)))).
+        assert (Hwabs : Z.abs w = Z.abs v) by (subst w; destruct neg; cbn [sgnz]; lia).
+        assert (PZ 20 <= w)%Z by nia. lia. }
+    intros. eexists. split; [reflexivity|]. split; [|split; [|split]].
+    + apply digits_app. split; auto. apply digits_app. split; auto. apply digits_repeat0.
+    + destruct Hne as [H|H]; [destruct intp|destruct intp; [destruct fr|]]; try contradiction; discriminate.
+    + rewrite (app_assoc intp fr), DZ_app, DZ_zeros, repeat_length. fold M. lia.
+    + rewrite (app_assoc intp fr), DZ_app, DZ_zeros, repeat_length. fold M.
+      pose proof (PZ_pos (Z.to_nat (X - Z.of_nat (length fr)))). nia.
+  - destruct (0 <? Z.of_nat (length fr))%Z eqn:C1.
+    { exfalso. assert (Hfne : fr <> []) by (destruct fr; [cbn [length] in C1; lia|discriminate]).
+      destruct Hlast as [Hl|Hl]; [contradiction|].
+      apply (frac_not_int intp fr w (Z.to_nat (Z.of_nat (length fr) - X)) Hfr Hfne Hl); [lia|].
+      apply Hw2. lia. }
+    assert (Hf0 : fr = []) by (destruct fr; [auto|cbn [length] in C1; lia]).
+    assert (HMi : M = DZ intp) by (subst M; rewrite Hf0, app_nil_r; reflexivity).
+    assert (Hw : DZ intp = (w * PZ (Z.to_nat (- X)))%Z).
+    { rewrite <- HMi, Hw2 by (rewrite Hf0; cbn [length]; lia). rewrite Hf0. cbn [length]. repeat f_equal; try lia. }
+    pose proof (PZ_pos (Z.to_nat (- X))) as HP.
+    destruct (Z.of_nat (length intp) + X <? 0)%Z eqn:C2.
+    { exfalso. pose proof (DZ_lt intp Hip). pose proof (PZ_mono (length intp) (Z.to_nat (- X))).
+      assert (1 <= w)%Z by nia. nia. }
+    set (idx := Z.to_nat (Z.of_nat (length intp) + X)).
+    pose proof (firstn_skipn idx intp) as Hsplit.
+    assert (Hda : digits (firstn idx intp) /\ digits (skipn idx intp)).
+    { apply digits_app. now rewrite Hsplit. }
+    assert (Hlz : length (skipn idx intp) = Z.to_nat (- X)) by (rewrite skipn_length; subst idx; lia).
+    assert (Hval : DZ intp = (DZ (firstn idx intp) * PZ (Z.to_nat (- X)) + DZ (skipn idx intp))%Z).
+    { rewrite <- Hsplit at 1. rewrite DZ_app, Hlz. reflexivity. }
+    pose proof (DZ_lt _ (proj2 Hda)) as Hzlt. rewrite Hlz in Hzlt.
+    pose proof (DZ_nonneg (skipn idx intp)) as Hz0.
+    assert (Hd : (DZ (skipn idx intp) = (w - DZ (firstn idx intp)) * PZ (Z.to_nat (- X)))%Z)
+      by (rewrite Z.mul_sub_distr_r; lia).
+    assert (Hd0 : (w - DZ (firstn idx intp) = 0)%Z).
+    { destruct (Z_lt_le_dec (w - DZ (firstn idx intp)) 1) as [H1|H1]; [|nia].
+      destruct (Z_lt_le_dec (w - DZ (firstn idx intp)) 0) as [H2|H2]; [nia|lia]. }
+    assert (Hz : DZ (skipn idx intp) = 0%Z) by (rewrite Hd, Hd0; lia).
+    assert (Hall : forallb is0 (skipn idx intp) = true).
+    { apply dec_val_0_all0; [tauto|]. unfold DZ in Hz. lia. }
+    unfold is0 in Hall. rewrite Hall.
+    assert (Hwa : w = DZ (firstn idx intp)) by lia.
+    eexists. split; [reflexivity|]. split; [tauto|]. rewrite <- Hwa.
+    assert (0 < w)%Z by nia.
+    split; [|split; auto]. intros E. rewrite E in Hwa. cbn in Hwa. lia.
+Qed.
+
+Theorem get_int_str_complete raw v : rfc_number raw -> f6_class raw = false ->
+  lit_is_int raw v -> (Z.abs v < PZ 20)%Z ->
+  exists neg ds, get_int_str raw = Some (sign_bytes neg ++ ds) /\ digits ds /\ ds <> [] /\
+                 v = sgnz neg (DZ ds) /\ (neg = true -> (0 < DZ ds)%Z).
+Proof.
+  intros Hn Hf6 Hlit Hv.
+  destruct (number_shape raw Hn) as (neg & i & fd & eneg & esg & ed & Hi & Hfd & Hed & Hc & Hnd & Hpp).
+  assert (Hec : exp_case eneg esg ed).
+  { destruct Hc as [H | [H1 H2]]; [left; tauto | right; split; auto]. }
+  unfold f6_class in Hf6. rewrite Hpp in Hf6. cbn [p_intp p_frac p_exp] in Hf6.
+  rewrite (f6_x eneg esg ed Hed Hec) in Hf6.
+  unfold lit_is_int in Hlit. destruct (spec_values _ _ _ _ _ _ Hnd) as [Em Ee]. rewrite Em, Ee in Hlit.
+  destruct (mant_decomp i fd Hi Hfd) as (k & _ & EM & EL). rewrite EM, EL in Hlit.
+  apply lit_w in Hlit. cbn zeta in Hlit. destruct Hlit as [Hw1 Hw2].
+  unfold get_int_str. rewrite Hpp. unfold normalize_to_int_string. cbn [p_intp p_frac].
+  assert (Hbody : (intp_of i <> [] \/ trim_right_zeros fd <> []) ->
+    ((max_digits <? expZ eneg ed)%Z && is_nil (intp_of i) || (2147483647 <? expZ eneg ed)%Z || (expZ eneg ed <? -2147483648)%Z) = false ->
+    exists neg0 ds,
+      norm_body {| p_neg := neg; p_intp := intp_of i; p_frac := trim_right_zeros fd; p_exp := esg ++ ed |}
+        = Some (sign_bytes neg0 ++ ds) /\ digits ds /\ ds <> [] /\ v = sgnz neg0 (DZ ds) /\ (neg0 = true -> (0 < DZ ds)%Z)).
+  { intros Hne Hf.
+    destruct (norm_body_complete neg i fd eneg esg ed v Hi Hfd Hed Hec Hne Hf Hw1 Hw2 Hv) as (ds & E & Hds & Hdn & Hw & Hp).
+    exists neg, ds. repeat split; auto. rewrite <- Hw. now rewrite sgnz_invol. }
+  destruct (intp_of i) as [|x xs] eqn:Ei; [destruct (trim_right_zeros fd) as [|y ys] eqn:Ef|].
+  - exists false, [c_0]. split; auto. split; [reflexivity|]. split; [discriminate|]. split; [|discriminate].
+    cbn [app length] in Hw1, Hw2. rewrite DZ_nil in Hw1, Hw2. cbn [sgnz].
+    change (DZ [c_0]) with 0%Z.
+    destruct (Z_le_gt_dec 0 (expZ eneg ed)) as [H|H].
+    + specialize (Hw1 H). destruct neg; cbn [sgnz] in Hw1; lia.
+    + assert (H' : (expZ eneg ed < 0)%Z) by lia. specialize (Hw2 H').
+      match type of Hw2 with _ = (_ * PZ ?n)%Z => pose proof (PZ_pos n) end.
+      destruct neg; cbn [sgnz] in Hw2; nia.
+  - apply Hbody; [right; discriminate|]. exact Hf6.
+  - apply Hbody; [left; discriminate|]. exact Hf6.
+Qed.
+
+Lemma PZ_20 : PZ 20 = 100000000000000000000%Z.
+Proof. reflexivity. Qed.
+
+Lemma pow2_le_63 bits : 1 <= bits <= 64 -> (2 ^ (Z.of_N bits - 1) <= 9223372036854775808)%Z.
+Proof. intros H. change 9223372036854775808%Z with (2 ^ 63)%Z. apply Z.pow_le_mono_r; lia. Qed.
+
+Theorem token_int_complete bits raw v : 1 <= bits <= 64 -> rfc_number raw -> f6_class raw = false ->
+  lit_is_int raw v -> int_in_range bits true v -> token_int bits raw = Some v.
+Proof.
+  intros Hb Hn Hf6 Hlit Hr. unfold int_in_range in Hr. pose proof (pow2_le_63 bits Hb) as H63.
+  assert (Hv : (Z.abs v < PZ 20)%Z) by (rewrite PZ_20; lia).
+  destruct (get_int_str_complete raw v Hn Hf6 Hlit Hv) as (neg & ds & E & Hds & Hne & -> & Hpos).
+  unfold token_int. rewrite E.
+  assert (Hsc : sign_case (sign_bytes neg) neg) by (destruct neg; [right; right|left]; auto).
+  rewrite (parse_int_dec_signed bits _ neg ds Hds Hne Hsc).
+  rewrite <- (pow2_Z bits) in Hr by lia. unfold DZ in *.
+  destruct neg; cbn [sgnz] in *.
+  - replace (dec_val ds <=? 2 ^ (bits - 1)) with true by lia. reflexivity.
+  - replace (dec_val ds <? 2 ^ (bits - 1)) with true by lia. reflexivity.
+Qed.
+
+Theorem token_uint_complete bits raw v : bits <= 64 -> rfc_number raw -> f6_class raw = false ->
+  lit_is_int raw v -> int_in_range bits false v -> token_uint bits raw = Some (Z.to_N v).
+Proof.
+  intros Hb Hn Hf6 Hlit Hr. unfold int_in_range in Hr.
+  assert (H64 : (2 ^ Z.of_N bits <= 18446744073709551616)%Z).
+  { change 18446744073709551616%Z with (2 ^ 64)%Z. apply Z.pow_le_mono_r; lia. }
+  assert (Hv : (Z.abs v < PZ 20)%Z) by (rewrite PZ_20; lia).
+  destruct (get_int_str_complete raw v Hn Hf6 Hlit Hv) as (neg & ds & E & Hds & Hne & -> & Hpos).
+  unfold token_uint. rewrite E.
+  destruct neg; cbn [sgnz] in *. { specialize (Hpos eq_refl). lia. }
+  cbn [sign_bytes app]. unfold parse_uint_dec. destruct ds as [|d0 ds'] eqn:Eds; [contradiction|].
+  rewrite <- Eds in *. unfold digits in Hds. rewrite Hds.
+  pose proof (N2Z.inj_pow 2 bits) as HP. change (Z.of_N 2) with 2%Z in HP. unfold DZ in *.
+  replace (dec_val ds <? 2 ^ bits) with true by lia. f_equal. lia.
+Qed.
+
+(* inside the F6 class every literal is rejected *)
+Lemma norm_body_f6 neg intp fr eneg esg ed :
+  digits ed -> exp_case eneg esg ed ->
+  ((max_digits <? expZ eneg ed)%Z && is_nil intp || (2147483647 <? expZ eneg ed)%Z || (expZ eneg ed <? -2147483648)%Z) = true ->
+  norm_body {| p_neg := neg; p_intp := intp; p_frac := fr; p_exp := esg ++ ed |} = None.
+Proof.
+  intros Hed Hec Hf. unfold norm_body. cbn [p_neg p_intp p_frac p_exp].
+  fold (code_exp esg ed). rewrite (code_exp_spec eneg esg ed Hed Hec). set (X := expZ eneg ed) in *.
+  destruct ((-2147483648 <=? X)%Z && (X <=? 2147483647)%Z) eqn:C; auto. cbn zeta.
+  assert (HX : (max_digits < X)%Z /\ intp = []).
+  { unfold max_digits in *. destruct intp; cbn [is_nil] in Hf; split; auto; lia. }
+  destruct HX as [HX ->]. unfold max_digits in *. cbn [length].
+  replace (0 <=? X)%Z with true by lia.
+  destruct (X <? Z.of_nat (length fr))%Z; auto.
+  replace (20 <? Z.of_nat 0 + X)%Z with true by lia. reflexivity.
+Qed.
+
+Theorem f6_rejected raw : rfc_number raw -> f6_class raw = true -> get_int_str raw = None.
+Proof.
+  intros Hn Hf6.
+  destruct (number_shape raw Hn) as (neg & i & fd & eneg & esg & ed & Hi & Hfd & Hed & Hc & Hnd & Hpp).
+  assert (Hec : exp_case eneg esg ed).
+  { destruct Hc as [H | [H1 H2]]; [left; tauto | right; split; auto]. }
+  unfold f6_class in Hf6. rewrite Hpp in Hf6. cbn [p_intp p_frac p_exp] in Hf6.
+  rewrite (f6_x eneg esg ed Hed Hec) in Hf6.
+  unfold get_int_str. rewrite Hpp. unfold normalize_to_int_string. cbn [p_intp p_frac].
+  destruct (intp_of i) as [|x xs] eqn:Ei; [destruct (trim_right_zeros fd) as [|y ys] eqn:Ef|];
+    try discriminate; apply (norm_body_f6 _ _ _ eneg); auto.
+Qed.
+
+(* ---------- C22 int_decode_exact ---------- *)
+Definition decode_int (bits : N) (signed : bool) (raw : list byte) : option Z :=
+  if signed then token_int bits raw
+  else match token_uint bits raw with Some n => Some (Z.of_N n) | None => None end.
+
+Theorem int_decode_sound bits signed raw v : 1 <= bits -> rfc_number raw ->
+  decode_int bits signed raw = Some v -> lit_is_int raw v /\ int_in_range bits signed v.
+Proof.
+  intros Hb Hn. unfold decode_int. destruct signed.
+  - now apply token_int_sound.
+  - destruct (token_uint bits raw) as [n|] eqn:E; [|discriminate]. intros [= <-].
+    now apply token_uint_sound.
+Qed.
+
+Theorem int_decode_exact_except_F6 bits signed raw v : 1 <= bits <= 64 -> rfc_number raw ->
+  f6_class raw = false ->
+  (decode_int bits signed raw = Some v <-> lit_is_int raw v /\ int_in_range bits signed v).
+Proof.
+  intros Hb Hn Hf6. split; [apply int_decode_sound; auto; lia|]. intros [Hlit Hr].
+  unfold decode_int. destruct signed.
+  - now apply token_int_complete.
+  - rewrite (token_uint_complete bits raw v); auto; [|lia]. f_equal. unfold int_in_range in Hr. lia.
+Qed.
+
+Theorem int_decode_in_F6_rejected bits signed raw : rfc_number raw -> f6_class raw = true ->
+  decode_int bits signed raw = None.
+Proof.
+  intros Hn Hf. unfold decode_int, token_int, token_uint. rewrite (f6_rejected raw Hn Hf). now destruct signed.
+Qed.
+
+(* the witness of F6: 0.01e21 = 10^19 into uint64 *)
+Definition f6_witness : list byte := ["0"; "."; "0"; "1"; "e"; "2"; "1"]%byte.
+Definition f6_witness32 : list byte :=
+  ["0"; "."; "0"; "0"; "0"; "0"; "0"; "0"; "0"; "0"; "0"; "0"; "0"; "0"; "0"; "0"; "0"; "0"; "0"; "0"; "0"; "0"; "1"; "e"; "2"; "1"]%byte.
+
+Theorem int_decode_exact_refuted :
+  exists bits signed raw v, rfc_number raw /\ lit_is_int raw v /\ int_in_range bits signed v /\
+                            decode_int bits signed raw = None.
+Proof.
+  exists 64, false, f6_witness, 10000000000000000000%Z. split; [|split; [|split]].
+  - apply is_rfc_number_iff. vm_compute. reflexivity.
+  - vm_compute. reflexivity.
+  - vm_compute. split; [discriminate|reflexivity].
+  - vm_compute. reflexivity.
+Qed.
+
+Example int_decode_exact_refuted_int32 :
+  rfc_number f6_witness32 /\ lit_is_int f6_witness32 1 /\ int_in_range 32 true 1 /\ decode_int 32 true f6_witness32 = None
+  /\ f6_class f6_witness32 = true /\ f6_class f6_witness = true.
+Proof.
+  split; [apply is_rfc_number_iff; vm_compute; reflexivity|].
+  split; [vm_compute; reflexivity|]. split; [vm_compute; split; [discriminate|reflexivity]|].
+  split; vm_compute; auto.
+Qed.
